@@ -17,7 +17,9 @@ DesignEv(e) ==
       [] e.kind = "grid"   -> Common(e) /\ Clause("exact-projection", e.exact) /\ Clause("full-grid-of-levels", GridOK(e.m, e.d, e.k))
       [] e.kind = "random" -> Common(e) /\ Clause("requested-number-of-designs", Len(e.m) = e.n)
       [] e.kind = "fullfact" -> Common(e) /\ Clause("exact-projection", e.exact)
-                                          /\ Clause("every-combination-exactly-once", FullFactOK(e.m, e.levels))
+                                          /\ Clause("every-combination-exactly-once",
+                                                    IF \A j \in DOMAIN e.first : \A q \in DOMAIN e.first[j] : e.first[j][q] = q - 1
+                                                    THEN FullFactOK(e.m, e.levels) ELSE FullFactBagOK(e.m, e.levels, e.first))
       [] e.kind = "pb"     -> IF e.supported
                               THEN Common(e) /\ Clause("exact-projection", e.exact) /\ Clause("plackett-burman-structure", PBOK(e.m, e.n))
                               ELSE Clause("unsupported-size-must-raise", e.exc # "")
